@@ -193,7 +193,7 @@ class DiffRun:
         for name, afn, sfn in subcases(seq):
             try:
                 r = sfn()
-                exp = ("ok", norm(slist(r)) if hasattr(r, "__iter__") and not isinstance(r, (list, tuple)) else norm(r))
+                exp = ("ok", norm(slist(r)) if hasattr(r, "__next__") else norm(r))
             except Exception as e:
                 exp = ("err", type(e).__name__)
             ctx = Ctx(rng, mode)
@@ -339,8 +339,10 @@ class IterCheck:
     def __init__(self):
         self.seqs_q = all_seqs(4)
         self.seqs_t = all_seqs(6)
-        self.table_q = [(s, m) for s in self.seqs_q for m in MODES]
-        self.table_t = [(s, m) for s in self.seqs_t for m in MODES]
+        # sequences containing None and other falsy / unusual elements (sentinel confusion)
+        odd = [tuple(x) for n in range(1, 4) for x in itertools.product([1, None, ""], repeat=n)]
+        self.table_q = [(s, m) for s in self.seqs_q + odd for m in MODES]
+        self.table_t = [(s, m) for s in self.seqs_t + odd for m in MODES]
         self.budgets = {"quick": (len(self.table_q) + 60000, 120), "thorough": (len(self.table_t) + 3_000_000, 1500)}
         self.rule_text = (
             "part (i): table = all sequences over {0,1,2} up to length 4 (quick) / 6 (thorough) x source kind (list, iterator, "
